@@ -189,6 +189,8 @@ def run_arity(chk, F, G, CG):
                         opts = [Lin(x) for x in sorted(set(ks.values()))]
                     elif v[0] == "sym" and v[2] in ("number", "flag"):
                         opts = [Lin.var("$%d" % v[1])]
+                    elif v[0] in ("global", "expr"):
+                        opts = [Lin.var("@g")]
                     else:
                         opts = [None]
                     variants = [x + [o] for x in variants for o in opts]
